@@ -30,7 +30,24 @@ func init() {
 	streams["iter"] = iterStream
 }
 
+// iterDistinct counts the container shapes (kind, threshold, digest mode, size) iterated so far.
+var iterDistinct int
+
+func iterNote(st *hx.Stats, seen map[string]bool, key, sample string) {
+	if !seen[key] {
+		seen[key] = true
+		iterDistinct++
+	}
+	if len(st.Samples) < 4 {
+		st.Samples = append(st.Samples, sample)
+	}
+}
+
+var iterSeen = map[string]bool{}
+
 func iterStream(cfg *Config) *hx.Stats {
+	iterDistinct = 0
+	iterSeen = map[string]bool{}
 	st := hx.NewStats("iter", cfg.Seed)
 	rng := rand.New(rand.NewSource(cfg.Seed*104729 + 5))
 	w := hx.NewW(filepath.Join(cfg.Out, fmt.Sprintf("iter-%d.trace", cfg.Seed)))
@@ -58,7 +75,7 @@ func iterStream(cfg *Config) *hx.Stats {
 		st.Programs++
 	}
 	st.TraceLines = w.Lines
-	st.Distinct = len(st.Dist)
+	st.Distinct = iterDistinct
 	atree.VerifSetThreshold(1024)
 	atree.VerifSetMaxCollisionLimitPerDigest(255)
 	return st
@@ -87,11 +104,26 @@ func loadedIDs(ps *atree.PersistentSlabStorage) []atree.SlabID {
 	return ids
 }
 
+// errLine is the first line of an error message (fatal errors carry a stack trace).
+func errLine(err error) string {
+	if err == nil {
+		return "<nil>"
+	}
+	m := err.Error()
+	if i := strings.IndexByte(m, '\n'); i >= 0 {
+		m = m[:i]
+	}
+	if len(m) > 200 {
+		m = m[:200]
+	}
+	return m
+}
+
 func idList(ids []atree.SlabID) string {
 	if len(ids) == 0 {
 		return "-"
 	}
-	return strings.Join(idStrs(ids), ",")
+	return strings.Join(itIDStrs(ids), ",")
 }
 
 func sameIDs(a, b []atree.SlabID) bool {
@@ -170,9 +202,232 @@ func loadSubset(rng *rand.Rand, fresh *atree.PersistentSlabStorage, ids []atree.
 }
 
 // ---------------------------------------------------------------------------------------------
+// environments and helpers (this file depends only on package hx, `streams` and `Config`)
+
+type itArr struct {
+	w       *hx.W
+	st      *hx.Stats
+	cfg     *Config
+	rng     *rand.Rand
+	T       uint32
+	maxInl  uint32
+	ledger  *hx.Ledger
+	ps      *atree.PersistentSlabStorage
+	rec     *hx.RecStorage
+	arr     *atree.Array
+	addr    atree.Address
+	ty      hx.TI
+	shadow  []hx.TV
+	nextPay uint64
+	prog    int
+	step    int
+}
+
+type itMap struct {
+	w       *hx.W
+	st      *hx.Stats
+	cfg     *Config
+	rng     *rand.Rand
+	T       uint32
+	ledger  *hx.Ledger
+	ps      *atree.PersistentSlabStorage
+	rec     *hx.RecStorage
+	m       *atree.OrderedMap
+	b       atree.DigesterBuilder
+	addr    atree.Address
+	ty      hx.TI
+	L       uint
+	climit  uint32
+	shadow  map[hx.TV]hx.TV
+	keyUniv []hx.TV
+	nextPay uint64
+	prog    int
+	step    int
+	maxKey  uint32
+	maxElem uint32
+}
+
+// itRenderStorable renders a storable as "<size>:<desc>" (the form of OBS lines).
+func itRenderStorable(s atree.Storable) string {
+	if s == nil {
+		return "0:nil"
+	}
+	switch x := s.(type) {
+	case atree.SlabIDStorable:
+		return fmt.Sprintf("%d:R%s", s.ByteSize(), hx.IDStr(atree.SlabID(x)))
+	case hx.TV:
+		return fmt.Sprintf("%d:v%d", x.Size, x.Pay)
+	case atree.Slab:
+		return fmt.Sprintf("%d:%s", s.ByteSize(), atree.VerifDumpSlab(x, hx.Describe))
+	}
+	return fmt.Sprintf("%d:%s", s.ByteSize(), hx.Describe.Storable(s))
+}
+
+func itIDStrs(ids []atree.SlabID) []string {
+	out := make([]string, len(ids))
+	for i, id := range ids {
+		out[i] = hx.IDStr(id)
+	}
+	return out
+}
+
+func itMix(a, b, c uint64) uint64 {
+	x := a*0x9E3779B97F4A7C15 ^ (b+1)*0xC2B2AE3D27D4EB4F ^ (c+7)*0x165667B19E3779F9
+	x ^= x >> 29
+	x *= 0xBF58476D1CE4E5B9
+	x ^= x >> 32
+	return x
+}
+
+func itEmitEffects(w *hx.W, ps *atree.PersistentSlabStorage, rec *hx.RecStorage) {
+	w.L("EFF %s", hx.NetEffect(rec.Effs))
+	for _, id := range hx.StoredIDs(rec.Effs) {
+		s, ok, err := ps.Retrieve(id)
+		if err != nil || !ok {
+			w.L("SLB MISSING(%s)", hx.IDStr(id))
+			continue
+		}
+		w.L("SLB %s", atree.VerifDumpSlab(s, hx.Describe))
+	}
+	rec.Reset()
+}
+
+// itDispose releases a large-value slab the library handed back (the caller's duty).
+func itDispose(w *hx.W, ps *atree.PersistentSlabStorage, s atree.Storable) {
+	if id, ok := s.(atree.SlabIDStorable); ok {
+		w.L("DSP id=%s", hx.IDStr(atree.SlabID(id)))
+		_ = ps.Remove(atree.SlabID(id))
+	}
+}
+
+// itResolve turns a stored value (plain or a reference to a large-value slab) into the value.
+func itResolve(ps *atree.PersistentSlabStorage, s atree.Storable) (hx.TV, bool) {
+	switch x := s.(type) {
+	case hx.TV:
+		return x, true
+	case atree.SlabIDStorable:
+		sl, ok, err := ps.Retrieve(atree.SlabID(x))
+		if err != nil || !ok {
+			return hx.TV{}, false
+		}
+		cs := sl.ChildStorables()
+		if len(cs) == 1 {
+			tv, ok := cs[0].(hx.TV)
+			return tv, ok
+		}
+	}
+	return hx.TV{}, false
+}
+
+func itFitValue(size uint32, pay uint64) hx.TV {
+	if size < 2 {
+		size = 2
+	}
+	for !hx.ValidTV(size, pay) {
+		pay %= 200
+		if !hx.ValidTV(size, pay) {
+			size++
+		}
+	}
+	return hx.TV{Size: size, Pay: pay}
+}
+
+func (e *itArr) violation(prop, what string) {
+	e.st.Violations = append(e.st.Violations, hx.Violation{
+		Property: prop, Stream: e.st.Stream, Seed: e.cfg.Seed, Program: e.prog, Step: e.step, What: what, Trace: e.w.Path,
+	})
+}
+func (e *itArr) emitEffects()             { itEmitEffects(e.w, e.ps, e.rec) }
+func (e *itArr) dispose(s atree.Storable) { itDispose(e.w, e.ps, s) }
+func (e *itArr) obsErr(err error)         { e.w.L("OBS err:%s", hx.ErrKind(err)) }
+
+func (e *itArr) genSize(prof int) uint32 {
+	m := e.maxInl
+	r := e.rng
+	switch prof {
+	case 0: // tiny
+		return uint32(2 + r.Intn(10))
+	case 1: // mid
+		return uint32(10 + r.Intn(int(m/2)))
+	case 2: // at and around the inline limit
+		return m - uint32(r.Intn(3))
+	case 3: // just over the limit: externalised
+		return m + 1 + uint32(r.Intn(40))
+	case 4: // just under half of T
+		return e.T/2 - 21 - uint32(r.Intn(8))
+	case 5: // fixed small
+		return 9
+	case 6: // quarter
+		return m/2 + uint32(r.Intn(5))
+	default: // mixture
+		return e.genSize(r.Intn(7))
+	}
+}
+
+func (e *itArr) genValue(prof int) hx.TV {
+	size := e.genSize(prof)
+	if size > e.T*2 {
+		size = e.T * 2
+	}
+	e.nextPay++
+	return itFitValue(size, e.nextPay)
+}
+
+func (e *itArr) checkReturned(prop string, got atree.Storable, want hx.TV) {
+	tv, ok := itResolve(e.ps, got)
+	if !ok {
+		e.violation(prop, fmt.Sprintf("returned storable %s does not resolve to a value", itRenderStorable(got)))
+		return
+	}
+	if tv != want {
+		e.violation(prop, fmt.Sprintf("returned element %v, sequence says %v", tv, want))
+	}
+}
+
+func (e *itMap) violation(prop, what string) {
+	e.st.Violations = append(e.st.Violations, hx.Violation{
+		Property: prop, Stream: e.st.Stream, Seed: e.cfg.Seed, Program: e.prog, Step: e.step, What: what, Trace: e.w.Path,
+	})
+}
+func (e *itMap) emitEffects()                           { itEmitEffects(e.w, e.ps, e.rec) }
+func (e *itMap) dispose(s atree.Storable)               { itDispose(e.w, e.ps, s) }
+func (e *itMap) resolve(s atree.Storable) (hx.TV, bool) { return itResolve(e.ps, s) }
+
+func (e *itMap) keyStr(k hx.TV) string {
+	digs, err := hx.Digests(e.b, k)
+	if err != nil {
+		panic(err)
+	}
+	parts := make([]string, len(digs))
+	for i, d := range digs {
+		parts[i] = fmt.Sprintf("%d", d)
+	}
+	return fmt.Sprintf("%d:%d@%s", k.Size, k.Pay, strings.Join(parts, ","))
+}
+
+func (e *itMap) genValue(prof int) hx.TV {
+	var size uint32
+	m := e.maxElem
+	switch prof {
+	case 0:
+		size = uint32(2 + e.rng.Intn(12))
+	case 1:
+		size = uint32(10 + e.rng.Intn(int(m/2)))
+	case 2:
+		size = m - 30 + uint32(e.rng.Intn(40)) // around the value limit for small keys
+	case 3:
+		size = m/2 + uint32(e.rng.Intn(6))
+	default:
+		return e.genValue(e.rng.Intn(4))
+	}
+	e.nextPay++
+	return itFitValue(size, e.nextPay)
+}
+
+// ---------------------------------------------------------------------------------------------
 // arrays
 
-func (e *arrEnv) itApply(op string, i uint64, v hx.TV) {
+func (e *itArr) itApply(op string, i uint64, v hx.TV) {
 	w := e.w
 	n := len(e.shadow)
 	switch op {
@@ -180,7 +435,7 @@ func (e *arrEnv) itApply(op string, i uint64, v hx.TV) {
 		w.L("OP app h=0 v=%d:%d", v.Size, v.Pay)
 		if err := e.arr.Append(v); err != nil {
 			e.obsErr(err)
-			e.violation("C01", "append failed: "+err.Error())
+			e.violation("C01", "append failed: "+errLine(err))
 		} else {
 			w.L("OBS ok")
 			e.shadow = append(e.shadow, v)
@@ -205,7 +460,7 @@ func (e *arrEnv) itApply(op string, i uint64, v hx.TV) {
 			e.obsErr(err)
 			e.violation("C01", fmt.Sprintf("in-range set at %d of %d failed: %v", i, n, err))
 		} else {
-			w.L("OBS ok:%s", renderStorable(old))
+			w.L("OBS ok:%s", itRenderStorable(old))
 			e.checkReturned("C01", old, e.shadow[i])
 			e.shadow[i] = v
 		}
@@ -220,7 +475,7 @@ func (e *arrEnv) itApply(op string, i uint64, v hx.TV) {
 			e.obsErr(err)
 			e.violation("C01", fmt.Sprintf("in-range remove at %d of %d failed: %v", i, n, err))
 		} else {
-			w.L("OBS ok:%s", renderStorable(old))
+			w.L("OBS ok:%s", itRenderStorable(old))
 			e.checkReturned("C01", old, e.shadow[i])
 			e.shadow = append(e.shadow[:i], e.shadow[i+1:]...)
 		}
@@ -244,7 +499,7 @@ func collectTV(dst *[]hx.TV, bad *bool) atree.ArrayIterationFunc {
 
 func iterArrayProgram(cfg *Config, st *hx.Stats, w *hx.W, rng *rand.Rand, p int) {
 	T := []uint32{256, 256, 512, 256, 1024, 300}[(p/2)%6]
-	e := &arrEnv{w: w, st: st, cfg: cfg, rng: rng, T: T, prog: p}
+	e := &itArr{w: w, st: st, cfg: cfg, rng: rng, T: T, prog: p}
 	_, _, maxInl, _ := atree.VerifSetThreshold(T)
 	e.maxInl = maxInl
 	e.ledger = hx.NewLedger()
@@ -294,9 +549,12 @@ func iterArrayProgram(cfg *Config, st *hx.Stats, w *hx.W, rng *rand.Rand, p int)
 	e.itFull()
 
 	rounds := 3 + rng.Intn(3)
+	iterNote(st, iterSeen, fmt.Sprintf("arr/%d/%d/%d", T, sizeProf, len(e.shadow)),
+		fmt.Sprintf("array T=%d sizeProfile=%d elements=%d slabs=%d rounds=%d (7 loaded subsets + 20 flavours + overwrite pass each)",
+			T, sizeProf, len(e.shadow), len(atree.VerifDeltas(e.ps)), rounds))
 	for r := 0; r < rounds && len(st.Violations) <= 20; r++ {
 		if err := e.ps.FastCommit(1 + rng.Intn(3)); err != nil {
-			e.violation("C03", "fault-free commit failed: "+err.Error())
+			e.violation("C03", "fault-free commit failed: "+errLine(err))
 			return
 		}
 		for k := 0; k < 7; k++ {
@@ -313,11 +571,11 @@ func iterArrayProgram(cfg *Config, st *hx.Stats, w *hx.W, rng *rand.Rand, p int)
 	var got []atree.Storable
 	if err := e.arr.PopIterate(func(s atree.Storable) { got = append(got, s) }); err != nil {
 		e.obsErr(err)
-		e.violation("C13", "PopIterate failed: "+err.Error())
+		e.violation("C13", "PopIterate failed: "+errLine(err))
 	} else {
 		parts := make([]string, len(got))
 		for k, s := range got {
-			parts[k] = renderStorable(s)
+			parts[k] = itRenderStorable(s)
 		}
 		w.L("OBS ok:[%s]", strings.Join(parts, ","))
 		if len(got) != n {
@@ -340,16 +598,16 @@ func iterArrayProgram(cfg *Config, st *hx.Stats, w *hx.W, rng *rand.Rand, p int)
 	e.itFull()
 }
 
-func (e *arrEnv) itFull() {
+func (e *itArr) itFull() {
 	e.w.L("FULL h=0 %s", hx.DumpTree(e.ps, atree.VerifArrayRoot(e.arr)))
 	if err := atree.VerifyArray(e.arr, e.addr, e.ty, func(a, b atree.TypeInfo) bool { return a == b }, nil, true); err != nil {
-		e.violation("C05", "VerifyArray: "+err.Error())
+		e.violation("C05", "VerifyArray: "+errLine(err))
 	}
 }
 
 // itLoadedRound opens the committed array on a fresh storage, loads a subset of the slabs and runs
 // the loaded-value iterator.
-func (e *arrEnv) itLoadedRound(k int) {
+func (e *itArr) itLoadedRound(k int) {
 	fresh := hx.NewStorage(e.ledger)
 	ids := e.ledger.SortedIDs()
 	mode := k % 5
@@ -366,7 +624,7 @@ func (e *arrEnv) itLoadedRound(k int) {
 	}
 	a2, err := atree.NewArrayWithRootID(fresh, e.arr.SlabID())
 	if err != nil {
-		e.violation("C03", "cannot reopen committed array: "+err.Error())
+		e.violation("C03", "cannot reopen committed array: "+errLine(err))
 		return
 	}
 	if !before {
@@ -392,7 +650,7 @@ func (e *arrEnv) itLoadedRound(k int) {
 	e.st.Hit(fmt.Sprintf("arr:loaded:mode%d", mode))
 	if err != nil {
 		e.obsErr(err)
-		e.violation("C13", "loaded-value iteration failed: "+err.Error())
+		e.violation("C13", "loaded-value iteration failed: "+errLine(err))
 		return
 	}
 	e.w.L("OBS ok:%s", tvList(got))
@@ -420,13 +678,13 @@ func (e *arrEnv) itLoadedRound(k int) {
 }
 
 // itFlavours runs every non-loaded iterator flavour on a fresh storage and on the live handle.
-func (e *arrEnv) itFlavours() {
+func (e *itArr) itFlavours() {
 	w := e.w
 	n := len(e.shadow)
 	fresh := hx.NewStorage(e.ledger)
 	a2, err := atree.NewArrayWithRootID(fresh, e.arr.SlabID())
 	if err != nil {
-		e.violation("C03", "cannot reopen committed array: "+err.Error())
+		e.violation("C03", "cannot reopen committed array: "+errLine(err))
 		return
 	}
 	type res struct {
@@ -530,7 +788,7 @@ func (e *arrEnv) itFlavours() {
 
 // itMutSet runs the mutable iterator on the live handle and overwrites the current element of
 // some positions from inside the callback.
-func (e *arrEnv) itMutSet(sizeProf int) {
+func (e *itArr) itMutSet(sizeProf int) {
 	w := e.w
 	n := len(e.shadow)
 	prob := []int{0, 10, 35, 100}[e.rng.Intn(4)]
@@ -576,7 +834,7 @@ func (e *arrEnv) itMutSet(sizeProf int) {
 			err = inner
 		}
 		e.obsErr(err)
-		e.violation("C13", "mutable iteration with overwrites failed: "+err.Error())
+		e.violation("C13", "mutable iteration with overwrites failed: "+errLine(err))
 		e.emitEffects()
 		return
 	}
@@ -615,7 +873,7 @@ func kvList(l []kvTV) string {
 	return "[" + strings.Join(parts, ",") + "]"
 }
 
-func (e *mapEnv) itSet(k, v hx.TV) {
+func (e *itMap) itSet(k, v hx.TV) {
 	w := e.w
 	_, present := e.shadow[k]
 	w.L("OP mset h=0 k=%s v=%d:%d", e.keyStr(k), v.Size, v.Pay)
@@ -632,7 +890,7 @@ func (e *mapEnv) itSet(k, v hx.TV) {
 				e.violation("C02", fmt.Sprintf("set(%v) returned no previous value", k))
 			}
 		} else {
-			w.L("OBS ok:%s", renderStorable(old))
+			w.L("OBS ok:%s", itRenderStorable(old))
 			if tv, ok := e.resolve(old); !present || !ok || tv != e.shadow[k] {
 				e.violation("C02", fmt.Sprintf("set(%v) returned previous value %v, dictionary has %v", k, tv, e.shadow[k]))
 			}
@@ -645,7 +903,7 @@ func (e *mapEnv) itSet(k, v hx.TV) {
 	}
 }
 
-func (e *mapEnv) itRemove(k hx.TV) {
+func (e *itMap) itRemove(k hx.TV) {
 	w := e.w
 	w.L("OP mrem h=0 k=%s", e.keyStr(k))
 	ks, vs, err := e.m.Remove(hx.CompareKey, hx.HashInput, k)
@@ -653,7 +911,7 @@ func (e *mapEnv) itRemove(k hx.TV) {
 		w.L("OBS err:%s", hx.ErrKind(err))
 		e.violation("C02", fmt.Sprintf("remove(%v) failed: %v", k, err))
 	} else {
-		w.L("OBS ok:%s,%s", renderStorable(ks), renderStorable(vs))
+		w.L("OBS ok:%s,%s", itRenderStorable(ks), itRenderStorable(vs))
 		if tv, ok := e.resolve(vs); !ok || tv != e.shadow[k] {
 			e.violation("C02", fmt.Sprintf("remove(%v) returned %v, dictionary has %v", k, tv, e.shadow[k]))
 		}
@@ -665,10 +923,10 @@ func (e *mapEnv) itRemove(k hx.TV) {
 	}
 }
 
-func (e *mapEnv) itFull() {
+func (e *itMap) itFull() {
 	e.w.L("FULL h=0 %s", hx.DumpTree(e.ps, atree.VerifMapRoot(e.m)))
 	if err := atree.VerifyMap(e.m, e.addr, e.ty, func(a, b atree.TypeInfo) bool { return a == b }, hx.HashInput, true); err != nil {
-		e.violation("C05", "VerifyMap: "+err.Error())
+		e.violation("C05", "VerifyMap: "+errLine(err))
 	}
 }
 
@@ -686,7 +944,7 @@ func digestLess(a, b []uint64) bool {
 
 // checkMapEnumeration: every pair exactly once, values as in the dictionary, keys in ascending
 // order of their digest vectors.
-func (e *mapEnv) checkMapEnumeration(name string, got []kvTV, checkValues bool) {
+func (e *itMap) checkMapEnumeration(name string, got []kvTV, checkValues bool) {
 	if len(got) != len(e.shadow) {
 		e.violation("C13", fmt.Sprintf("%s yielded %d entries, dictionary has %d", name, len(got), len(e.shadow)))
 		return
@@ -707,7 +965,7 @@ func (e *mapEnv) checkMapEnumeration(name string, got []kvTV, checkValues bool) 
 	e.checkDigestOrder(name, got)
 }
 
-func (e *mapEnv) checkDigestOrder(name string, got []kvTV) {
+func (e *itMap) checkDigestOrder(name string, got []kvTV) {
 	digs := make([][]uint64, len(got))
 	for i, p := range got {
 		digs[i], _ = hx.Digests(e.b, p.k)
@@ -722,7 +980,7 @@ func (e *mapEnv) checkDigestOrder(name string, got []kvTV) {
 
 func iterMapProgram(cfg *Config, st *hx.Stats, w *hx.W, rng *rand.Rand, p int) {
 	T := []uint32{256, 256, 256, 512, 256, 1024}[(p/2)%6]
-	e := &mapEnv{w: w, st: st, cfg: cfg, rng: rng, T: T, prog: p}
+	e := &itMap{w: w, st: st, cfg: cfg, rng: rng, T: T, prog: p}
 	atree.VerifSetThreshold(T)
 	_, _, _, _, maxElem, maxKey := atree.VerifThresholds()
 	e.maxElem, e.maxKey = maxElem, maxKey
@@ -759,7 +1017,7 @@ func iterMapProgram(cfg *Config, st *hx.Stats, w *hx.W, rng *rand.Rand, p int) {
 		L := e.L
 		mkBuilder = func() atree.DigesterBuilder {
 			return &hx.TableDigesterBuilder{L: L, Fn: func(k hx.TV, l uint) uint64 {
-				return mix(k.Pay, uint64(l), salt) % alph[l] * 1000003
+				return itMix(k.Pay, uint64(l), salt) % alph[l] * 1000003
 			}}
 		}
 	}
@@ -816,9 +1074,12 @@ func iterMapProgram(cfg *Config, st *hx.Stats, w *hx.W, rng *rand.Rand, p int) {
 
 	var lastFull []kvTV
 	rounds := 3 + rng.Intn(3)
+	iterNote(st, iterSeen, fmt.Sprintf("map/%d/%d/%d/%d", T, mode, e.L, len(e.shadow)),
+		fmt.Sprintf("map T=%d digestMode=%d levels=%d entries=%d slabs=%d rounds=%d (7 loaded subsets + 12 flavours + overwrite pass each)",
+			T, mode, e.L, len(e.shadow), len(atree.VerifDeltas(e.ps)), rounds))
 	for r := 0; r < rounds && len(st.Violations) <= 20; r++ {
 		if err := e.ps.FastCommit(1 + rng.Intn(3)); err != nil {
-			e.violation("C03", "fault-free commit failed: "+err.Error())
+			e.violation("C03", "fault-free commit failed: "+errLine(err))
 			return
 		}
 		for k := 0; k < 7; k++ {
@@ -836,11 +1097,11 @@ func iterMapProgram(cfg *Config, st *hx.Stats, w *hx.W, rng *rand.Rand, p int) {
 	var got []skv
 	if err := e.m.PopIterate(func(k, v atree.Storable) { got = append(got, skv{k, v}) }); err != nil {
 		w.L("OBS err:%s", hx.ErrKind(err))
-		e.violation("C13", "PopIterate failed: "+err.Error())
+		e.violation("C13", "PopIterate failed: "+errLine(err))
 	} else {
 		parts := make([]string, len(got))
 		for i, p := range got {
-			parts[i] = renderStorable(p.k) + "=" + renderStorable(p.v)
+			parts[i] = itRenderStorable(p.k) + "=" + itRenderStorable(p.v)
 		}
 		w.L("OBS ok:[%s]", strings.Join(parts, ","))
 		rev := make([]kvTV, len(got))
@@ -877,7 +1138,7 @@ func iterMapProgram(cfg *Config, st *hx.Stats, w *hx.W, rng *rand.Rand, p int) {
 }
 
 // itShape records which collision-group shapes sit at slab boundaries (coverage only).
-func (e *mapEnv) itShape() {
+func (e *itMap) itShape() {
 	dump := hx.DumpTree(e.ps, atree.VerifMapRoot(e.m))
 	if strings.Contains(dump, " I(") || strings.Contains(dump, "[I(") {
 		e.st.Hit("map:shape:inline-group")
@@ -910,13 +1171,13 @@ func (e *mapEnv) itShape() {
 	}
 }
 
-func (e *mapEnv) reopen(mk func() atree.DigesterBuilder) (*atree.PersistentSlabStorage, *atree.OrderedMap, error) {
+func (e *itMap) reopen(mk func() atree.DigesterBuilder) (*atree.PersistentSlabStorage, *atree.OrderedMap, error) {
 	fresh := hx.NewStorage(e.ledger)
 	m2, err := atree.NewMapWithRootID(fresh, e.m.SlabID(), mk())
 	return fresh, m2, err
 }
 
-func (e *mapEnv) fullList() []kvTV {
+func (e *itMap) fullList() []kvTV {
 	var got []kvTV
 	_ = e.m.IterateReadOnly(func(k, v atree.Value) (bool, error) {
 		kt, _ := k.(hx.TV)
@@ -927,7 +1188,7 @@ func (e *mapEnv) fullList() []kvTV {
 	return got
 }
 
-func (e *mapEnv) itLoadedRound(k int, mk func() atree.DigesterBuilder) {
+func (e *itMap) itLoadedRound(k int, mk func() atree.DigesterBuilder) {
 	fresh := hx.NewStorage(e.ledger)
 	ids := e.ledger.SortedIDs()
 	mode := k % 5
@@ -943,7 +1204,7 @@ func (e *mapEnv) itLoadedRound(k int, mk func() atree.DigesterBuilder) {
 	}
 	m2, err := atree.NewMapWithRootID(fresh, e.m.SlabID(), mk())
 	if err != nil {
-		e.violation("C03", "cannot reopen committed map: "+err.Error())
+		e.violation("C03", "cannot reopen committed map: "+errLine(err))
 		return
 	}
 	if !before {
@@ -974,7 +1235,7 @@ func (e *mapEnv) itLoadedRound(k int, mk func() atree.DigesterBuilder) {
 	e.st.Hit(fmt.Sprintf("map:loaded:mode%d", mode))
 	if err != nil {
 		e.w.L("OBS err:%s", hx.ErrKind(err))
-		e.violation("C13", "loaded-value iteration failed: "+err.Error())
+		e.violation("C13", "loaded-value iteration failed: "+errLine(err))
 		return
 	}
 	e.w.L("OBS ok:%s", kvList(got))
@@ -999,11 +1260,11 @@ func (e *mapEnv) itLoadedRound(k int, mk func() atree.DigesterBuilder) {
 	}
 }
 
-func (e *mapEnv) itFlavours(mk func() atree.DigesterBuilder) []kvTV {
+func (e *itMap) itFlavours(mk func() atree.DigesterBuilder) []kvTV {
 	w := e.w
 	_, m2, err := e.reopen(mk)
 	if err != nil {
-		e.violation("C03", "cannot reopen committed map: "+err.Error())
+		e.violation("C03", "cannot reopen committed map: "+errLine(err))
 		return nil
 	}
 	pairFn := func(dst *[]kvTV) atree.MapEntryIterationFunc {
@@ -1023,7 +1284,7 @@ func (e *mapEnv) itFlavours(mk func() atree.DigesterBuilder) []kvTV {
 	}
 	fail := func(name string, err error) {
 		w.L("OBS err:%s", hx.ErrKind(err))
-		e.violation("C13", name+" iteration failed: "+err.Error())
+		e.violation("C13", name+" iteration failed: "+errLine(err))
 	}
 	var ref []kvTV
 	for idx, mm := range []*atree.OrderedMap{m2, e.m} {
@@ -1104,7 +1365,7 @@ func (e *mapEnv) itFlavours(mk func() atree.DigesterBuilder) []kvTV {
 	return ref
 }
 
-func (e *mapEnv) itMutSet(valProf int) {
+func (e *itMap) itMutSet(valProf int) {
 	w := e.w
 	prob := []int{0, 10, 35, 100}[e.rng.Intn(4)]
 	sets := map[hx.TV]hx.TV{}
@@ -1153,7 +1414,7 @@ func (e *mapEnv) itMutSet(valProf int) {
 			err = inner
 		}
 		w.L("OBS err:%s", hx.ErrKind(err))
-		e.violation("C13", "mutable iteration with overwrites failed: "+err.Error())
+		e.violation("C13", "mutable iteration with overwrites failed: "+errLine(err))
 		e.emitEffects()
 		return
 	}
@@ -1239,7 +1500,7 @@ func iterNestedOracle(cfg *Config, st *hx.Stats, w *hx.W, rng *rand.Rand, p int)
 		})
 		st.Hit("nested:array-of-arrays")
 		if err != nil {
-			viol("mutating child arrays during mutable iteration failed: " + err.Error())
+			viol("mutating child arrays during mutable iteration failed: " + errLine(err))
 			return
 		}
 		if len(seen) != nChildren {
@@ -1261,14 +1522,14 @@ func iterNestedOracle(cfg *Config, st *hx.Stats, w *hx.W, rng *rand.Rand, p int)
 			}
 		}
 		if err := atree.VerifyArray(parent, addr, hx.TI(1), tyEq, nil, true); err != nil {
-			viol("VerifyArray after mutating children during iteration: " + err.Error())
+			viol("VerifyArray after mutating children during iteration: " + errLine(err))
 		}
 		return
 	}
 	// map whose values are arrays
 	b := &hx.TableDigesterBuilder{L: 4, Fn: func(k hx.TV, l uint) uint64 {
 		alph := []uint64{uint64(3 + nChildren/4), 3, 2, 1 << 62}
-		return mix(k.Pay, uint64(l), 77) % alph[l] * 1000003
+		return itMix(k.Pay, uint64(l), 77) % alph[l] * 1000003
 	}}
 	parent, err := atree.NewMap(ps, addr, b, hx.TI(1))
 	if err != nil {
@@ -1301,7 +1562,7 @@ func iterNestedOracle(cfg *Config, st *hx.Stats, w *hx.W, rng *rand.Rand, p int)
 	})
 	st.Hit("nested:map-of-arrays")
 	if err != nil {
-		viol("mutating child arrays during mutable map iteration failed: " + err.Error())
+		viol("mutating child arrays during mutable map iteration failed: " + errLine(err))
 		return
 	}
 	if !equalTV(seen, order) {
@@ -1317,6 +1578,6 @@ func iterNestedOracle(cfg *Config, st *hx.Stats, w *hx.W, rng *rand.Rand, p int)
 		}
 	}
 	if err := atree.VerifyMap(parent, addr, hx.TI(1), tyEq, hx.HashInput, true); err != nil {
-		viol("VerifyMap after mutating children during iteration: " + err.Error())
+		viol("VerifyMap after mutating children during iteration: " + errLine(err))
 	}
 }
